@@ -86,4 +86,13 @@ theorem C13_sector_count (s1 : Sector) (hb : ∀ b ∈ s1, b < 256) :
   rw [Nat.mod_eq_of_lt (by omega), Beeb.Bits.or_mul_pow 8 _ _ (by omega)]
   omega
 
+/-- **Geometry probing is total**: it fails only when no candidate is large enough
+    for the catalogue's sector count.  (The "other side has a catalogue too" test is
+    a tie-breaker among the large-enough candidates; it never eliminates them all.) -/
+theorem C13_geometry_found (m : Media) (fmt : Format) (total : Nat) (cands : List ImgFmt)
+    (h : ∃ ff ∈ cands, (if singleSidedFilesystem fmt m then ff.geom.cylinders * ff.geom.sectors
+      else ff.geom.totalSectors) ≥ total) :
+    (probeGeometry m fmt total cands).isSome :=
+  probeGeometry_total m fmt total cands h
+
 end Beeb.Props.C13
